@@ -9,6 +9,8 @@ Hidden state is fed explicitly: the global numpy generator is replaced, while th
 out the same finite stream of uniform numbers the Lean definition receives (`rng-exhausted` when it is used up); the fuel of a
 `while` loop is `len(stream) + 1`.
 """
+from fractions import Fraction
+
 from .core import Driver, flist, ilist, next_up, next_down
 
 
@@ -280,6 +282,231 @@ def tie_apply_mct(rng, n):
                 f"{';'.join(tbl) if tbl else '-'}")
     out = drv.run()
     return len(exp), [(c, a[:200], b[:200]) for (c, a), b in zip(exp, out) if a != b]
+
+
+# ----------------------------------------------------------------------------- C05 / C06 simulation loop
+def _bits(x):
+    import struct
+    return str(struct.unpack("<Q", struct.pack("<d", float(x)))[0])
+
+
+def _unbits(t):
+    import struct
+    return struct.unpack("<d", struct.pack("<Q", int(t)))[0]
+
+
+def _ell(x):
+    import math
+    return "ninf" if x == -math.inf else _bits(x)
+
+
+class _poisson_feeder:
+    """the global numpy generator while the real test runs: ambient streams, replaced by the seeded ones at seed(s)"""
+
+    def __init__(self, rng, pois, srng, spois):
+        self.rng, self.pois, self.srng, self.spois = list(rng), list(pois), list(srng), list(spois)
+
+    def __enter__(self):
+        import numpy
+        self.saved = (numpy.random.rand, numpy.random.poisson, numpy.random.seed)
+
+        def rand(n):
+            n = int(n)
+            if n > len(self.rng):
+                raise _Exhausted()
+            out, self.rng = self.rng[:n], self.rng[n:]
+            return numpy.array(out, dtype=numpy.float64)
+
+        def poisson(mean):
+            if not self.pois:
+                raise _Exhausted()
+            return self.pois.pop(0)
+
+        def seed(s):
+            self.rng, self.pois = list(self.srng), list(self.spois)
+        numpy.random.rand, numpy.random.poisson, numpy.random.seed = rand, poisson, seed
+        return self
+
+    def __exit__(self, *a):
+        import numpy
+        numpy.random.rand, numpy.random.poisson, numpy.random.seed = self.saved
+
+
+def tie_poisson_test_loop(injected):
+    def tie(rng, n):
+        """the real `_poisson_likelihood_test` against `SrcSM.poisson_test_loop[_injected]`. The values computed before the
+        loop (live-in parameters of the definition) are recomputed here with the statements of the source
+        (poisson_evaluations.py:628-656); statistics are compared to 1e-12, the quantile, the numbers of unused stream
+        elements and the exception class exactly"""
+        import math
+        import numpy
+        from csep.core import poisson_evaluations as pe
+        from .core import frac
+        drv, exp = Driver(), []
+        for _ in range(max(20, n // 10)):
+            m = rng.randint(1, 7)
+            fd = numpy.array([rng.choice([rng.uniform(1e-3, 3), rng.uniform(0.1, 20), 0.0 if rng.random() < 0.15 else 1.0])
+                              for _ in range(m)])
+            if fd.sum() == 0:
+                fd[0] = 0.5
+            od = numpy.array([rng.choice([0, 0, 1, 2, 3]) for _ in range(m)], dtype=numpy.int64)
+            if od.sum() == 0:
+                od[rng.randrange(m)] = 1
+            uoc, nl = rng.random() < 0.6, rng.random() < 0.5
+            nsim = rng.choice([0, 1, 2, 3, 5])
+            seed = rng.choice([None, None, 0, 0, 7, 123456])
+            n_obs = int(od.sum())
+            draws = lambda k: [rng.choice([rng.random(), rng.random(), float(next_down(1.0)), 0.0]) for _ in range(k)]
+            amb, sdd = draws(rng.choice([0, 10, 60, 60])), draws(rng.choice([0, 10, 60, 60]))
+            pa, ps = [rng.randint(0, 4) for _ in range(rng.choice([0, 6, 6]))], [rng.randint(0, 4) for _ in range(rng.choice([0, 6, 6]))]
+            rows, width = None, 0
+            if injected:
+                nrows = nsim + rng.choice([0, 0, 1])
+                rows = [draws(n_obs if uoc else rng.randint(0, 4)) for _ in range(nrows)]
+                if not uoc:      # rows must have the lengths of the Poisson draws to pass the count assertion
+                    src = list(ps if seed is not None else pa)
+                    rows = [draws(src[i] if i < len(src) and rng.random() < 0.9 else rng.randint(0, 3)) for i in range(nrows)]
+                width = max([len(r) for r in rows] + [0])
+                if any(len(r) != width for r in rows):     # a 2-d numpy array needs equal rows: make them equal
+                    rows = [draws(width) for _ in rows]
+            with numpy.errstate(all="ignore"):
+                # the statements of the source before the loop
+                sw = numpy.cumsum(fd.ravel()); sw = sw / sw[-1]
+                expected = numpy.sum(fd); logs = numpy.log(fd.ravel())
+                if uoc and nl:
+                    expected = int(n_obs); logs = numpy.log(fd.ravel() * (n_obs / numpy.sum(fd)))
+                tidx = numpy.nonzero(od.ravel()); odn = od.ravel()[tidx]; tef = logs[tidx] * odn
+                fdr = _poisson_feeder(amb, pa, sdd, ps)
+
+                def call():
+                    with fdr:
+                        qs, obs, sims = pe._poisson_likelihood_test(
+                            fd, od, num_simulations=nsim, seed=seed, use_observed_counts=uoc, verbose=False,
+                            normalize_likelihood=nl,
+                            random_numbers=None if not injected else numpy.array(rows, dtype=numpy.float64).reshape(len(rows), width))
+                    return ("ok", float(qs) if nsim else None, float(obs), [float(v) for v in sims], len(fdr.rng), len(fdr.pois))
+                try:
+                    got = call()
+                except ZeroDivisionError:
+                    continue            # num_simulations = 0: qs = 0 / 0 (numpy nan with a warning, python error): outside the model
+                except _Exhausted:
+                    got = "err rng-exhausted"
+                except AssertionError:
+                    got = "err AssertionError"
+                except IndexError:
+                    got = "err IndexError"
+            if nsim == 0:
+                continue
+            rowtxt = "-" if not injected or not rows else ";".join(flist(r) for r in rows)
+            if injected and rows and all(len(r) == 0 for r in rows):
+                continue                # rows of width 0 cannot be written in the line protocol
+            exp.append((dict(fd=list(fd), od=list(od), uoc=uoc, nl=nl, nsim=nsim, seed=seed), got))
+            drv.ask(f"srcsm_poisson_test_loop {'inj' if injected else 'stream'} {nsim} {'none' if seed is None else seed} "
+                    f"{int(uoc)} {flist(sw)} {ilist([0] * m)} {n_obs} {_bits(expected)} {','.join(_ell(v) for v in logs)} "
+                    f"{ilist(odn)} {','.join(_ell(v) for v in tef) or '-'} {flist(amb)} {ilist(pa)} {flist(sdd)} {ilist(ps)} {rowtxt}")
+        out = drv.run()
+        bad = []
+        for (c, a), b in zip(exp, out):
+            if isinstance(a, str):
+                if a != b:
+                    bad.append((c, a, b[:120]))
+                continue
+            if not b.startswith("ok "):
+                bad.append((c, "ok", b[:120])); continue
+            parts = b[3:].split("|")
+            qs = Fraction(parts[0])
+            un = lambda t: -math.inf if t == "ninf" else _unbits(t)
+            obs = un(parts[1]); sims = [] if parts[2] == "-" else [un(t) for t in parts[2].split(",")]
+            close = lambda x, y: (x == y) if (abs(x) == math.inf or abs(y) == math.inf) else abs(x - y) <= 1e-12 * max(1.0, abs(x), abs(y))
+            rest = [int(t) for t in parts[3:]]
+            want_rest = [a[4], a[5]] if not injected else [a[5]]
+            if not (Fraction(a[1]) == qs and close(a[2], obs) and len(sims) == len(a[3]) and
+                    all(close(x, y) for x, y in zip(a[3], sims)) and rest == want_rest):
+                bad.append((c, str(a)[:160], b[:160]))
+        return len(exp), bad
+    return tie
+
+
+def tie_binary_test_loop(injected):
+    def tie(rng, n):
+        """the real `_binary_likelihood_test` against `SrcSM.binary_test_loop[_injected]` (live-in values recomputed with the
+        statements of the source, binomial_evaluations.py:147-164; `numpy.random.uniform` / `seed` fed from given streams)"""
+        import math
+        import numpy
+        from csep.core import binomial_evaluations as be
+        drv, exp = Driver(), []
+        for _ in range(max(20, n // 10)):
+            m = rng.randint(2, 7)
+            fd = numpy.array([rng.choice([rng.uniform(1e-3, 2), rng.uniform(0.05, 0.5), 0.0 if rng.random() < 0.15 else 0.3])
+                              for _ in range(m)])
+            if (fd > 0).sum() == 0:
+                fd[0] = 0.5
+            npos = int((fd > 0).sum())
+            od = numpy.zeros(m, dtype=numpy.int64)
+            for j in rng.sample(range(m), rng.randint(1, max(1, min(npos, m)))):
+                od[j] = rng.choice([1, 1, 2])
+            nact = int((od > 0).sum())
+            nsim = rng.choice([1, 2, 3, 5])
+            seed = rng.choice([None, None, 0, 0, 7])
+            draws = lambda k: [rng.choice([rng.random(), rng.random(), float(next_down(1.0)), 0.0]) for _ in range(k)]
+            amb, sdd = draws(rng.choice([0, 20, 150, 150])), draws(rng.choice([0, 20, 150, 150]))
+            rows = None
+            if injected:
+                rows = [draws(nact if rng.random() < 0.85 else nact + 1) for _ in range(nsim + rng.choice([0, 1]))]
+                width = max(len(r) for r in rows)
+                rows = [r if len(r) == width else draws(width) for r in rows]
+            with numpy.errstate(all="ignore"):
+                fm = numpy.ma.masked_where(fd <= 0.0, fd)
+                sw = numpy.ma.getdata(numpy.cumsum(fm.ravel())); sw = sw / sw[-1]
+                fdr = _Feeder([])
+                state = dict(cur=list(amb))
+
+                def uniform(lo=0.0, hi=1.0, size=None):
+                    if not state["cur"]:
+                        raise _Exhausted()
+                    return state["cur"].pop(0)
+
+                def seed_fn(s_):
+                    state["cur"] = list(sdd)
+                saved = (numpy.random.uniform, numpy.random.seed)
+                numpy.random.uniform, numpy.random.seed = uniform, seed_fn
+                try:
+                    qs, obs, sims = be._binary_likelihood_test(
+                        fd, od, num_simulations=nsim, seed=seed, verbose=False,
+                        random_numbers=None if not injected else numpy.array(rows, dtype=numpy.float64))
+                    got = ("ok", float(qs), float(obs), [float(v) for v in sims], len(state["cur"]))
+                except _Exhausted:
+                    got = "err rng-exhausted"
+                except AssertionError:
+                    got = "err AssertionError"
+                except IndexError:
+                    got = "err IndexError"
+                finally:
+                    numpy.random.uniform, numpy.random.seed = saved
+            if not isinstance(got, str) and not all(math.isfinite(v) for v in [got[2]] + got[3]):
+                continue            # a masked cell hit by the observation: non-finite statistic, outside the real layer
+            fuel = max(len(amb), len(sdd)) + 1
+            exp.append((dict(fd=list(fd), od=list(od), nsim=nsim, seed=seed), got))
+            drv.ask(f"srcsm_binary_test_loop {'inj' if injected else 'stream'} {nsim} {'none' if seed is None else seed} "
+                    f"{flist(sw)} {ilist([0] * m)} {nact} {','.join(_bits(v) for v in fd)} {ilist(od)} {fuel} {flist(amb)} "
+                    f"{flist(sdd)} {'-' if not injected else ';'.join(flist(r) for r in rows)}")
+        out = drv.run()
+        bad = []
+        for (c, a), b in zip(exp, out):
+            if isinstance(a, str):
+                if a != b:
+                    bad.append((c, a, b[:120]))
+                continue
+            if not b.startswith("ok "):
+                bad.append((c, "ok", b[:120])); continue
+            parts = b[3:].split("|")
+            sims = [] if parts[2] == "-" else [_unbits(t) for t in parts[2].split(",")]
+            close = lambda x, y: abs(x - y) <= 1e-12 * max(1.0, abs(x), abs(y))
+            if not (Fraction(a[1]) == Fraction(parts[0]) and close(a[2], _unbits(parts[1])) and len(sims) == len(a[3]) and
+                    all(close(x, y) for x, y in zip(a[3], sims)) and (injected or int(parts[3]) == a[4])):
+                bad.append((c, str(a)[:160], b[:160]))
+        return len(exp), bad
+    return tie
 
 
 # ----------------------------------------------------------------------------- C04 filter
@@ -580,6 +807,10 @@ def tie_build_bitmask_loop(rng, n):
 
 
 TIES = {
+    "binary_test_loop": tie_binary_test_loop(False),
+    "binary_test_loop_injected": tie_binary_test_loop(True),
+    "poisson_test_loop": tie_poisson_test_loop(False),
+    "poisson_test_loop_injected": tie_poisson_test_loop(True),
     "spatial_counts": tie_grid("spatial_counts"),
     "magnitude_counts": tie_grid("magnitude_counts"),
     "spatial_magnitude_counts": tie_grid("spatial_magnitude_counts"),
